@@ -63,3 +63,96 @@ Print Assumptions C05_percall.
 Theorem C05_window : forall single deadline now,
   0 <= single -> snd (wait_len single deadline now) = spec_wait single deadline now.
 Proof. exact wait_len_spec. Qed.
+
+(* ---- the code is the model (regenerated each run): the real Client.send_request executed on a symbolic clock (tools/symtrans.py,
+   Gen/Fn_SendRequest.v) - symbolic request_timeout, p2, p2*, start instant and arrival instants; every wait is observed with its timeout value and its instant ---- *)
+From UDS Require Import Gen.Fn_SendRequest Model.Services Proofs.Tie_send_common Proofs.Tie_send_base Proofs.Tie_send_percall.
+
+Theorem C05_code_send_request_silence : forall cfg T P2 P2S now, timing cfg (Some T) P2 P2S ->
+  fn_send_request_silence T P2 P2S now = ret (obs_sr (send_request cfg st_init tp_req (-1) now [])).
+Proof. exact tie_send_request_silence. Qed.
+Print Assumptions C05_code_send_request_silence.
+Theorem C05_code_send_request_silence_no_overall : forall cfg P2 P2S now, timing cfg None P2 P2S ->
+  fn_send_request_silence_no_overall P2 P2S now = ret (obs_sr (send_request cfg st_init tp_req (-1) now [])).
+Proof. exact tie_send_request_silence_no_overall. Qed.
+Print Assumptions C05_code_send_request_silence_no_overall.
+Theorem C05_code_send_request_P : forall cfg T P2 P2S now a1, timing cfg (Some T) P2 P2S -> now < a1 ->
+  fn_send_request_P T P2 P2S now a1 = ret (obs_sr (send_request cfg st_init tp_req (-1) now [(a1, Frame [126; 0])])).
+Proof. exact tie_send_request_P. Qed.
+Print Assumptions C05_code_send_request_P.
+Theorem C05_code_send_request_P_no_overall : forall cfg P2 P2S now a1, timing cfg None P2 P2S -> now < a1 ->
+  fn_send_request_P_no_overall P2 P2S now a1 = ret (obs_sr (send_request cfg st_init tp_req (-1) now [(a1, Frame [126; 0])])).
+Proof. exact tie_send_request_P_no_overall. Qed.
+Print Assumptions C05_code_send_request_P_no_overall.
+Theorem C05_code_send_request_W : forall cfg T P2 P2S now a1, timing cfg (Some T) P2 P2S -> now < a1 ->
+  fn_send_request_W T P2 P2S now a1 = ret (obs_sr (send_request cfg st_init tp_req (-1) now [(a1, Frame [127; 62; 120])])).
+Proof. exact tie_send_request_W. Qed.
+Print Assumptions C05_code_send_request_W.
+Theorem C05_code_send_request_W_no_overall : forall cfg P2 P2S now a1, timing cfg None P2 P2S -> now < a1 ->
+  fn_send_request_W_no_overall P2 P2S now a1 = ret (obs_sr (send_request cfg st_init tp_req (-1) now [(a1, Frame [127; 62; 120])])).
+Proof. exact tie_send_request_W_no_overall. Qed.
+Print Assumptions C05_code_send_request_W_no_overall.
+Theorem C05_code_send_request_N : forall cfg T P2 P2S now a1, timing cfg (Some T) P2 P2S -> now < a1 ->
+  fn_send_request_N T P2 P2S now a1 = ret (obs_sr (send_request cfg st_init tp_req (-1) now [(a1, Frame [127; 62; 34])])).
+Proof. exact tie_send_request_N. Qed.
+Print Assumptions C05_code_send_request_N.
+Theorem C05_code_send_request_N_no_overall : forall cfg P2 P2S now a1, timing cfg None P2 P2S -> now < a1 ->
+  fn_send_request_N_no_overall P2 P2S now a1 = ret (obs_sr (send_request cfg st_init tp_req (-1) now [(a1, Frame [127; 62; 34])])).
+Proof. exact tie_send_request_N_no_overall. Qed.
+Print Assumptions C05_code_send_request_N_no_overall.
+Theorem C05_code_send_request_I : forall cfg T P2 P2S now a1, timing cfg (Some T) P2 P2S -> now < a1 ->
+  fn_send_request_I T P2 P2S now a1 = ret (obs_sr (send_request cfg st_init tp_req (-1) now [(a1, Frame [127])])).
+Proof. exact tie_send_request_I. Qed.
+Print Assumptions C05_code_send_request_I.
+Theorem C05_code_send_request_I_no_overall : forall cfg P2 P2S now a1, timing cfg None P2 P2S -> now < a1 ->
+  fn_send_request_I_no_overall P2 P2S now a1 = ret (obs_sr (send_request cfg st_init tp_req (-1) now [(a1, Frame [127])])).
+Proof. exact tie_send_request_I_no_overall. Qed.
+Print Assumptions C05_code_send_request_I_no_overall.
+Theorem C05_code_send_request_U : forall cfg T P2 P2S now a1, timing cfg (Some T) P2 P2S -> now < a1 ->
+  fn_send_request_U T P2 P2S now a1 = ret (obs_sr (send_request cfg st_init tp_req (-1) now [(a1, Frame [81; 1])])).
+Proof. exact tie_send_request_U. Qed.
+Print Assumptions C05_code_send_request_U.
+Theorem C05_code_send_request_U_no_overall : forall cfg P2 P2S now a1, timing cfg None P2 P2S -> now < a1 ->
+  fn_send_request_U_no_overall P2 P2S now a1 = ret (obs_sr (send_request cfg st_init tp_req (-1) now [(a1, Frame [81; 1])])).
+Proof. exact tie_send_request_U_no_overall. Qed.
+Print Assumptions C05_code_send_request_U_no_overall.
+Theorem C05_code_send_request_WP : forall cfg T P2 P2S now a1 a2, timing cfg (Some T) P2 P2S -> now < a1 ->
+  fn_send_request_WP T P2 P2S now a1 a2 = ret (obs_sr (send_request cfg st_init tp_req (-1) now [(a1, Frame [127; 62; 120]); (a2, Frame [126; 0])])).
+Proof. exact tie_send_request_WP. Qed.
+Print Assumptions C05_code_send_request_WP.
+Theorem C05_code_send_request_WP_no_overall : forall cfg P2 P2S now a1 a2, timing cfg None P2 P2S -> now < a1 ->
+  fn_send_request_WP_no_overall P2 P2S now a1 a2 = ret (obs_sr (send_request cfg st_init tp_req (-1) now [(a1, Frame [127; 62; 120]); (a2, Frame [126; 0])])).
+Proof. exact tie_send_request_WP_no_overall. Qed.
+Print Assumptions C05_code_send_request_WP_no_overall.
+Theorem C05_code_send_request_WN : forall cfg T P2 P2S now a1 a2, timing cfg (Some T) P2 P2S -> now < a1 ->
+  fn_send_request_WN T P2 P2S now a1 a2 = ret (obs_sr (send_request cfg st_init tp_req (-1) now [(a1, Frame [127; 62; 120]); (a2, Frame [127; 62; 34])])).
+Proof. exact tie_send_request_WN. Qed.
+Print Assumptions C05_code_send_request_WN.
+Theorem C05_code_send_request_WN_no_overall : forall cfg P2 P2S now a1 a2, timing cfg None P2 P2S -> now < a1 ->
+  fn_send_request_WN_no_overall P2 P2S now a1 a2 = ret (obs_sr (send_request cfg st_init tp_req (-1) now [(a1, Frame [127; 62; 120]); (a2, Frame [127; 62; 34])])).
+Proof. exact tie_send_request_WN_no_overall. Qed.
+Print Assumptions C05_code_send_request_WN_no_overall.
+Theorem C05_code_send_request_WW : forall cfg T P2 P2S now a1 a2, timing cfg (Some T) P2 P2S -> now < a1 ->
+  fn_send_request_WW T P2 P2S now a1 a2 = ret (obs_sr (send_request cfg st_init tp_req (-1) now [(a1, Frame [127; 62; 120]); (a2, Frame [127; 62; 120])])).
+Proof. exact tie_send_request_WW. Qed.
+Print Assumptions C05_code_send_request_WW.
+Theorem C05_code_send_request_WW_no_overall : forall cfg P2 P2S now a1 a2, timing cfg None P2 P2S -> now < a1 ->
+  fn_send_request_WW_no_overall P2 P2S now a1 a2 = ret (obs_sr (send_request cfg st_init tp_req (-1) now [(a1, Frame [127; 62; 120]); (a2, Frame [127; 62; 120])])).
+Proof. exact tie_send_request_WW_no_overall. Qed.
+Print Assumptions C05_code_send_request_WW_no_overall.
+Theorem C05_code_send_request_percall_silence : forall cfg T Tp P2 P2S now, timing cfg (Some T) P2 P2S -> 0 <= Tp ->
+  fn_send_request_percall_silence T Tp P2 P2S now = ret (obs_sr (send_request cfg st_init tp_req Tp now [])).
+Proof. exact tie_send_request_percall_silence. Qed.
+Print Assumptions C05_code_send_request_percall_silence.
+Theorem C05_code_send_request_percall_P : forall cfg T Tp P2 P2S now a1, timing cfg (Some T) P2 P2S -> 0 <= Tp -> now < a1 ->
+  fn_send_request_percall_P T Tp P2 P2S now a1 = ret (obs_sr (send_request cfg st_init tp_req Tp now [(a1, Frame [126; 0])])).
+Proof. exact tie_send_request_percall_P. Qed.
+Print Assumptions C05_code_send_request_percall_P.
+Theorem C05_code_send_request_percall_WP : forall cfg T Tp P2 P2S now a1 a2, timing cfg (Some T) P2 P2S -> 0 <= Tp -> now < a1 ->
+  fn_send_request_percall_WP T Tp P2 P2S now a1 a2 = ret (obs_sr (send_request cfg st_init tp_req Tp now [(a1, Frame [127; 62; 120]); (a2, Frame [126; 0])])).
+Proof. exact tie_send_request_percall_WP. Qed.
+Print Assumptions C05_code_send_request_percall_WP.
+Theorem C05_code_send_request_percall_W : forall cfg T Tp P2 P2S now a1, timing cfg (Some T) P2 P2S -> 0 <= Tp -> now < a1 ->
+  fn_send_request_percall_W T Tp P2 P2S now a1 = ret (obs_sr (send_request cfg st_init tp_req Tp now [(a1, Frame [127; 62; 120])])).
+Proof. exact tie_send_request_percall_W. Qed.
+Print Assumptions C05_code_send_request_percall_W.
